@@ -86,6 +86,11 @@ class NadaFunction(Generic[T, R]):
             raise NotAllowedException(
                 "Nada functions with literal argument types are not allowed"
             )
+        if not isinstance(child, return_type):
+            raise TypeError(
+                f"Nada function '{function.__name__}' is declared to return "
+                f"{return_type.__name__} but returns {type(child).__name__}"
+            )
         self.child = child
         self.id = function_id
         self.args = args
